@@ -41,6 +41,11 @@ theorem gen_depth_limited : Jsonx.cfg.depthLimit = some (Jsonx.depthLimit.getD 0
     limit does not count signs, so the stack bound rests on this) -/
 theorem gen_sign_case_iterative : Jsonx.cfg.signRecursive = false := by decide
 
+/-- `semiInserter.Token` is a loop and does not call itself: a dropped line
+    break costs no stack frame (the model's `semiInsert` walks the materialised
+    token list; that this is no recursion in the source is this fact) -/
+theorem gen_semi_inserter_iterative : Jsonx.semiTokenCallsItself = false := by decide
+
 theorem gen_cfg_good : GoodCfg Jsonx.cfg :=
   ⟨gen_errMax_pos, gen_list_breaks, gen_skip_stops_at_eof, gen_skip_skips_other, gen_sign_case_iterative⟩
 
